@@ -161,6 +161,10 @@ func c11Run(c *Ctx) {
 				}
 			}
 			cands = append(cands, cand{"uuid-canon", cr.Canon.Start, []int{cr.Moov.End}})
+			if cr.MoovFirst.End > 0 {
+				// an uninterpreted direct child of moov (the container cannot close it)
+				cands = append(cands, cand{"moov-child", cr.MoovFirst.Start, []int{cr.Moov.End}}, cand{"moov-child", cr.MoovFirst.Start, []int{cr.Moov.End}})
+			}
 			if o.Preview != nil {
 				cands = append(cands, cand{"PRVW", cr.PRVW.Start, []int{cr.PrevUUID.End}})
 			}
@@ -355,7 +359,11 @@ func c11Run(c *Ctx) {
 				return // nothing interpretable was left: the end of the stream was reached while skipping
 			}
 			if j < 0 {
-				return // desynchronised by the malformed child: nothing further is promised
+				// the child that overstates its size lies inside a top-level box whose own size is
+				// well-formed: "whatever sizes its children declare ... after a top-level box is
+				// processed the reader stands exactly at the next top-level box"
+				fail("position", "after-malformed-"+top[lim].Type, fmt.Sprintf("ReadMetadata (err=%v) on top-level box %s [%d,%d) left the stream at %d, inside the box (%s)", err, top[lim].Type, top[lim].Start, top[lim].End, p, malDesc))
+				return
 			}
 			i = j + 1
 		}
